@@ -101,6 +101,54 @@ def _projection(e: ast.AST) -> Optional[ast.AST]:
     return None
 
 
+WHOLE_ATTRS = ("ipnet", "_ipnet", "items", "_items", "wildcard", "_wildcard")
+
+
+def _label_of_candidate(cand: ast.AST, taint) -> Optional[ast.AST]:
+    """`<candidate>.uuid`, `.line`, `.name` ...: a label of the candidate stands in the containment test instead of the
+    candidate (or its network): equal labels do not mean contained networks."""
+    for x in ast.walk(cand):
+        if isinstance(x, ast.Attribute) and isinstance(x.value, ast.Name) and taint.get(x.value.id) == {"other"} and x.attr not in WHOLE_ATTRS and not isinstance(getattr(x, "_parent", None), ast.Call):
+            return x
+    return None
+
+
+def members_after_own_network(ctx: Ctx, rep: Report, f: Func, q: str, of) -> None:
+    """An address that has a network of its own is judged by that network; its member list is consulted only when it has
+    none (the line setters re-type an address without emptying the members: a former group that was given a plain line
+    must not be judged by its old members)."""
+    ab = ctx.prog.classes.get("AddressBase")
+    if ab is None or f.cls is None or ab not in f.cls.mro:
+        return
+    cfg = ctx.cfg(f)
+
+    def about_other(x: ast.AST, what) -> bool:
+        for y in ast.walk(x):
+            if isinstance(y, ast.Call) and isinstance(y.func, ast.Attribute) and y.func.attr in what and y.args and of(y.args[0]) == {"other"} and not any(isinstance(z, ast.Name) and z.id != src(y.args[0]) and of(z) == {"other"} for z in ast.walk(y.args[0])):
+                if isinstance(y.args[0], ast.Name) and y.args[0].id == f.params[1]:
+                    return True
+            if isinstance(y, ast.Attribute) and y.attr in what and isinstance(y.value, ast.Name) and y.value.id == f.params[1]:
+                return True
+        return False
+
+    own = [c for c in cfg.live if c.kind == "cond" and about_other(c.ast, ("_get_ipnet", "ipnet", "_ipnet"))]
+    mem = [n for n in cfg.live if n.ast is not None and n.kind in ("stmt", "cond", "for") and about_other(n.ast.iter if n.kind == "for" else n.ast, ("_get_items", "items", "_items"))]
+    if not mem:
+        return
+    rep.instance()
+    if not own:
+        rep.violation(q, snippet(mem[0].ast, 60), "the operand's member list is consulted but its own network never is", where(f, mem[0].ast))
+        return
+    cut = {(c.id, "F") for c in own}
+    from .common import reachable_without_edges
+
+    early = [n for n in mem if n in reachable_without_edges(cfg, cfg.entry, cut)]
+    if early:
+        rep.violation(q, snippet(early[0].ast, 60), "the operand's member list is consulted before (or without) its own network: an address that was a group and was re-assigned a plain line is judged by its old members", where(f, early[0].ast), inp="a = AddressAg('group-object G', items=[...]); a.line = 'host 10.0.0.1'; a in other")
+    else:
+        rep.ok(f"{q}: members of the operand", "consulted only after the operand's own network test has failed", where=where(f, mem[0].ast))
+
+
 def _drops_members(e: ast.AST) -> Optional[ast.AST]:
     """A sub-expression that lets only some members through: a filtering comprehension, filter(), a proper slice."""
     for x in ast.walk(e):
@@ -219,6 +267,10 @@ def containment_operator(ctx: Ctx, rep: Report, q: str, f: Optional[Func] = None
             continue  # a test that does not relate the two operands (isinstance-like membership in a constant)
         n_dir += 1
         rep.instance()
+        label = _label_of_candidate(cand, t)
+        if label is not None and _projection(cand) is None:
+            rep.violation(q, snippet(node), f"the test compares `{snippet(label, 40)}`, a label of the candidate (identifier, text, name), not the candidate or its network: equal labels do not mean contained networks (a cloned and then edited member keeps its identifier)", where(f, node), inp="clone a group with its uuids, edit a member so that it lies outside, ask `clone in original`")
+            continue
         part = _projection(cand) or _projection(cont)
         if part is not None:
             rep.violation(q, snippet(node), f"the test compares `{snippet(part, 40)}`, a single address or a part of the network, not the network: a candidate that starts inside the container and reaches outside is reported contained", where(f, node), inp="10.0.0.0/8 in 10.0.0.0/24 -> True")
@@ -234,6 +286,7 @@ def containment_operator(ctx: Ctx, rep: Report, q: str, f: Optional[Func] = None
         rep.violation(q, "containment test", "no test relates the operand to self: the answer does not depend on containment", where(f))
     # ---- quantifiers
     candidate_members_complete(ctx, rep, f, q, of)
+    members_after_own_network(ctx, rep, f, q, of)
     no_carried_positive(ctx, rep, f, q, of)
     _quantifier_calls(ctx, rep, f, q, of)
     loops = [n for n in cfg.live if n.kind == "for"]
@@ -390,5 +443,11 @@ def run(ctx: Ctx, rep: Report, tier: str) -> None:
     sub = Report("C13")
     r05_9(ctx, sub, rid="R05.9")
     rep.absorb(sub, "R13.4")
+    # R13.5 the network list of a group is complete (C05 R05.12)
+    from .c05 import expansion_covers_members
+
+    sub = Report("C13")
+    expansion_covers_members(ctx, sub)
+    rep.absorb(sub, "R13.5")
     rep.rule("R13.3")
     rep.floor(6, "elementary tests and loops of the containment operators")
